@@ -59,9 +59,12 @@ class Net:
         self.faults = faults or FaultScript()
         self.devices = [SimDevice(self, spec) for spec in population]
         self.vanished = set()     # labels not answering discovery at all
+        self.timeline = None      # optional shared list also receiving ('dev', …) entries
 
     def log(self, label, method, args, outcome):
         self.events.append((label, method, args, outcome))
+        if self.timeline is not None:
+            self.timeline.append(('dev', label, method, args, outcome))
 
     def attempt(self, label, method, args):
         if self.faults.should_fail(label, method):
@@ -249,6 +252,7 @@ def install(population, faults=None, trace=None, settings_overrides=None, discov
     if discover:
         net.discover_result = ls.discover()
     net.trace = trace
+    net.timeline = trace
     return net, ls, trace
 
 
